@@ -19,7 +19,7 @@ OVERRIDES = K.OVERRIDES
 
 
 def caps(tier):
-    return dict(rest=50, store=3, long_store=16) if tier == "quick" else dict(rest=62, store=4, long_store=40)
+    return dict(rest=50, store=3, long_store=16) if tier == "quick" else dict(rest=54, store=4, long_store=40)
 
 
 def make_queries(tier):
